@@ -68,7 +68,7 @@ class Build:
             if not mm:
                 continue
             names = re.findall(r"#\[kani::proof\][^\n]*\n(?:\s*#\[[^\n]*\n)*\s*fn\s+(\w+)", txt)
-            for m in re.finditer(r"^\s*\w+!\(\s*([a-z]_\w+)\s*,", txt, re.M):
+            for m in re.finditer(r"^\s*\w+!\(\s*([a-z]{1,2}_\w+)\s*,", txt, re.M):
                 names.append(m.group(1))
             for n in names:
                 self.hidx[n] = ("::".join(modpart.split("__")) + "::" + mm.group(1) + "::" + n, base,
